@@ -511,7 +511,7 @@ Fixpoint ufeed_until (fuel : nat) (p : uparser) (s : sink) (b : bytes) : res ure
    containers of zero-sized elements) decrements a count: the count is unbounded,
    so fuel includes the counts announced by the input. *)
 Definition ufeed_fuel (p : uparser) (b : bytes) : nat :=
-  8 * length b + 16 + 8000.
+  8 * length b + 16 + 8000 + 4 * length (up_stack p).
 
 Fixpoint ufeed (fuel : nat) (p : uparser) (s : sink) (b : bytes) : res (uparser * sink * Z) :=
   match fuel with
